@@ -10,10 +10,10 @@ import (
 
 func init() {
 	register(&propDef{
-		ID:    "C05",
-		Title: "A reload switches generations atomically and visibly",
-		Run:   runC05,
-		Explanation: "Structural necessary conditions of atomic, visible generation switches, decided on SSA + call graph: (lockset) the served generation and its path are only touched under reloadMu; (order) in FBDNSDB.Reload the swap, the path update and the cache purge happen only on the success edge of (*db.DB).Reload, inside the write-locked region, swap before purge, and no path from the swap to a return skips the path update or (cache enabled) the purge; (partial) the path of a partial reload is read inside the same critical section; (pin) a query acquires exactly one reader and nothing else on the query path reads the served generation, and DB.dbi is write-once; (validate) (*db.DB).Reload returns a new *DB only after its validation succeeded; (old-survives) a failed same-backend reload cannot close the served backend. No schedule is executed: these rules show that the only places where the generation changes or is observed are ordered by one RW lock.",
+		ID:          "C05",
+		Title:       "A reload switches generations atomically and visibly",
+		Run:         runC05,
+		Explanation: "Structural necessary conditions of atomic, visible generation switches, decided on SSA + call graph: (lockset) the served generation and its path are only touched under reloadMu; (order) in FBDNSDB.Reload the swap, the path update and the cache purge happen only on the success edge of (*db.DB).Reload, inside the write-locked region, swap before purge, and no path from the swap to a return skips the path update or (cache enabled) the purge; (partial) the path of a partial reload is read inside the same critical section; (pin) a query acquires exactly one reader and nothing else on the query path reads the served generation, and DB.dbi is write-once; (validate) (*db.DB).Reload returns a new *DB only after its validation succeeded; (old-survives) a failed same-backend reload cannot close the served backend; (driver-path) a driver handed out by a backend's Reload(path) remembers exactly that path, and the served driver is returned only when the requested path equals its own. No schedule is executed: these rules show that the only places where the generation changes or is observed are ordered by one RW lock.",
 	})
 }
 
@@ -45,6 +45,7 @@ func runC05(c *Ctx) {
 	c05Pin(c)
 	c05Validate(c)
 	c06AliasGuard(c, "C05.old-survives")
+	c05DriverPath(c)
 }
 
 // c05Order implements C05.order and C05.partial; reused by C12.purge.
@@ -114,8 +115,95 @@ func c05Order(c *Ctx, prop string) {
 		}
 		c.Check(rule, k+"|value", okv, st.Pos(), "the value installed is the *DB returned by (*db.DB).Reload")
 	}
-	if len(pathStores) == 0 {
-		c.Undecided(rule, name+"|path-store", fn.Pos(), "no store to dbConfig.Path found in the reload entry point")
+	// helpers: a call in the entry point to a module function that (transitively) stores dbConfig.Path is a path-store site too
+	isCfgPathStore := func(st *ssa.Store) bool {
+		fa, ok := st.Addr.(*ssa.FieldAddr)
+		if !ok {
+			return false
+		}
+		outer, ok := fa.X.(*ssa.FieldAddr)
+		return ok && fieldOf(outer) == fCfg
+	}
+	var storesPath func(g *ssa.Function, depth int, seen map[*ssa.Function]bool) []*ssa.Store
+	storesPath = func(g *ssa.Function, depth int, seen map[*ssa.Function]bool) []*ssa.Store {
+		if g == nil || seen[g] || depth > 3 || len(g.Blocks) == 0 || !c.isOurs(g.Pkg.Pkg) {
+			return nil
+		}
+		seen[g] = true
+		var out []*ssa.Store
+		for _, st := range storesToField(g, fPath) {
+			if isCfgPathStore(st) {
+				out = append(out, st)
+			}
+		}
+		for _, ci := range callInstrs(g) {
+			if _, isGo := ci.(*ssa.Go); isGo {
+				continue
+			}
+			out = append(out, storesPath(ci.Common().StaticCallee(), depth+1, seen)...)
+		}
+		return out
+	}
+	type helperStore struct {
+		call   ssa.CallInstruction
+		stores []*ssa.Store
+	}
+	var helperStores []helperStore
+	for _, ci := range callInstrs(fn) {
+		if _, isGo := ci.(*ssa.Go); isGo {
+			continue
+		}
+		g := ci.Common().StaticCallee()
+		if g == nil || g == fn {
+			continue
+		}
+		if sts := storesPath(g, 1, map[*ssa.Function]bool{}); len(sts) > 0 {
+			helperStores = append(helperStores, helperStore{ci, sts})
+			c.Examined(g)
+		}
+	}
+	if len(pathStores) == 0 && len(helperStores) == 0 {
+		c.Undecided(rule, name+"|path-store", fn.Pos(), "no store to dbConfig.Path found in the reload entry point or the helpers it calls")
+	}
+	for _, hs := range helperStores {
+		k := fmt.Sprintf("%s|path-store-via:%s", name, fnName(hs.call.Common().StaticCallee()))
+		c.Check(rule, k+"|on-success-only", dominatedByNilEdge(hs.call, isReloadErr), hs.call.Pos(), "a helper that stores dbConfig.Path may only be called on the err==nil edge of (*db.DB).Reload: a failed reload must leave the path partial reloads follow untouched")
+		locked := len(hs.call.Common().Args) > 0 && lockPath(hs.call, hs.call.Common().Args[0])
+		c.Check(rule, k+"|locked", locked, hs.call.Pos(), "helper storing dbConfig.Path called with reloadMu write-held")
+		// the value stored is a parameter of the helper whose argument is the path handed to (*db.DB).Reload
+		same := len(rcall.Call.Args) >= 2
+		if same {
+			want := sourcesOf(rcall.Call.Args[1])
+			g := hs.call.Common().StaticCallee()
+			for _, st := range hs.stores {
+				if st.Parent() != g {
+					same = false
+					break
+				}
+				for v := range sourcesOf(st.Val) {
+					pi := -1
+					for i, p := range g.Params {
+						if v == ssa.Value(p) {
+							pi = i
+						}
+					}
+					if pi < 0 || pi >= len(hs.call.Common().Args) {
+						same = false
+						continue
+					}
+					got := sourcesOf(hs.call.Common().Args[pi])
+					if len(got) != len(want) {
+						same = false
+					}
+					for w := range want {
+						if !got[w] {
+							same = false
+						}
+					}
+				}
+			}
+		}
+		c.Check(rule, k+"|same-path", same, hs.call.Pos(), "the path the helper records is the path that was handed to (*db.DB).Reload")
 	}
 	for i, st := range pathStores {
 		k := fmt.Sprintf("%s|path-store#%d", name, i)
@@ -157,16 +245,23 @@ func c05Order(c *Ctx, prop string) {
 		c.Check(rule, k+"|after-swap", after, pc.Pos(), "swap precedes purge on every path")
 	}
 	// must-pass-through from the swap to every return
-	if len(swaps) > 0 && len(pathStores) > 0 {
+	if len(swaps) > 0 && len(pathStores)+len(helperStores) > 0 {
 		blocked := map[*ssa.BasicBlock]bool{}
+		var sites []ssa.Instruction
 		for _, st := range pathStores {
+			sites = append(sites, st)
+		}
+		for _, hs := range helperStores {
+			sites = append(sites, hs.call)
+		}
+		for _, st := range sites {
 			if st.Block() != swaps[0].Block() || instrIndex(st) > instrIndex(swaps[0]) {
 				blocked[st.Block()] = true
 			}
 		}
 		ok := true
 		before := false
-		for _, st := range pathStores {
+		for _, st := range sites {
 			if instrDominates(st, swaps[0]) {
 				before = true // already recorded when the swap happens (same critical section)
 			}
@@ -230,42 +325,86 @@ func c05Order(c *Ctx, prop string) {
 	prule := prop + ".partial"
 	c.Rule(prule, "every value that can reach the path argument of (*db.DB).Reload is a constant, a field of the reload signal, or a direct load of dbConfig.Path made inside the write-locked region of the same function")
 	if len(rcall.Call.Args) >= 2 {
-		srcs := sourcesOf(rcall.Call.Args[1])
 		var keys []string
 		res := map[string][2]interface{}{}
-		for s := range srcs {
-			var k string
-			ok := false
-			why := ""
-			switch {
-			case s == nil:
-				k, ok, why = "zero-value", true, "unassigned string"
-			default:
+		record := func(k string, ok bool, why string) {
+			if prev, dup := res[k]; dup {
+				ok = ok && prev[0].(bool)
+			} else {
+				keys = append(keys, k)
+			}
+			res[k] = [2]interface{}{ok, why}
+		}
+		// classify the sources of v, a value of function g. site/args: the call in the entry point through which g
+		// was entered (nil for the entry point itself); a helper is entered with the locks held at that call.
+		var classify func(v ssa.Value, g *ssa.Function, site ssa.CallInstruction, prefix string, depth int)
+		classify = func(v ssa.Value, g *ssa.Function, site ssa.CallInstruction, prefix string, depth int) {
+			for s := range sourcesOf(v) {
+				if s == nil {
+					record(prefix+"zero-value", true, "unassigned string")
+					continue
+				}
 				switch x := unwrap(s).(type) {
 				case *ssa.Const:
-					k, ok, why = "const", true, "constant"
+					record(prefix+"const", true, "constant")
+					continue
+				case *ssa.Parameter:
+					if site == nil {
+						record(prefix+"param:"+x.Name(), true, "parameter of the reload entry point (the reload signal)")
+						continue
+					}
+					pi := -1
+					for i, p := range g.Params {
+						if p == x {
+							pi = i
+						}
+					}
+					if pi >= 0 && pi < len(site.Common().Args) {
+						classify(site.Common().Args[pi], fn, nil, prefix, depth)
+						continue
+					}
 				case *ssa.UnOp:
 					if fa, isfa := x.X.(*ssa.FieldAddr); isfa && fieldOf(fa) == fPath {
-						k = "load:dbConfig.Path"
 						base := fa.X
 						if o, isO := fa.X.(*ssa.FieldAddr); isO {
 							base = o.X
 						}
-						ok = lockPath(x, base)
-						why = "load of dbConfig.Path; reloadMu write-held at the load: " + fmt.Sprint(ok)
+						ok := false
+						if site == nil {
+							ok = lockPath(x, base)
+						} else {
+							// inside a helper: the base must be a parameter bound to the locked object at the call
+							for i, p := range g.Params {
+								if base == ssa.Value(p) && i < len(site.Common().Args) {
+									ok = lockPath(site, site.Common().Args[i])
+								}
+							}
+						}
+						record(prefix+"load:dbConfig.Path", ok, "load of dbConfig.Path; reloadMu write-held at the load: "+fmt.Sprint(ok))
+						continue
 					} else if isfa {
-						k, ok, why = "field:"+fieldName(fa.X.Type(), fa.Field), pathRootIsParam(fa, fn), "field of a parameter (the reload signal)"
+						record(prefix+"field:"+fieldName(fa.X.Type(), fa.Field), pathRootIsParam(fa, g), "field of a parameter (the reload signal)")
+						continue
 					}
 				case *ssa.Field:
-					k, ok, why = "field:"+fieldName(x.X.Type(), x.Field), true, "field of the reload signal value"
+					record(prefix+"field:"+fieldName(x.X.Type(), x.Field), true, "field of the reload signal value")
+					continue
 				}
-				if k == "" {
-					k, ok, why = fmt.Sprintf("other:%T", s), false, "path obtained outside the critical section (call result or unknown source): "+s.String()
+				if call, idx := callOfValue(s); call != nil && site == nil && depth < 1 {
+					if callee := call.Common().StaticCallee(); callee != nil && c.isOurs(callee.Pkg.Pkg) && len(callee.Blocks) > 0 {
+						c.Examined(callee)
+						for _, ret := range returnsOf(callee) {
+							if idx < len(ret.Results) {
+								classify(ret.Results[idx], callee, call, prefix+"via:"+fnName(callee)+"|", depth+1)
+							}
+						}
+						continue
+					}
 				}
+				record(prefix+fmt.Sprintf("other:%T", s), false, "path obtained outside the critical section (call result or unknown source): "+s.String())
 			}
-			keys = append(keys, k)
-			res[k] = [2]interface{}{ok, why}
 		}
+		classify(rcall.Call.Args[1], fn, nil, "", 0)
 		sort.Strings(keys)
 		for _, k := range keys {
 			c.Check(prule, name+"|path-source|"+k, res[k][0].(bool), rcall.Pos(), res[k][1].(string))
@@ -419,7 +558,6 @@ func c05Validate(c *Ctx) {
 	}
 	c.Floor(rule, 1)
 }
-
 
 // readerAcquirers: methods of FBDNSDB whose first result is a db.Reader (AcquireReader and its variants).
 func readerAcquirers(c *Ctx) map[*types.Func]bool {
